@@ -367,6 +367,51 @@ func (r *Run) solveAll() {
 		}()
 	}
 	wg.Wait()
+	// 2b. path by path: an obligation over many paths that no solver decided as a whole is decided path by
+	// path (it holds iff every path's VC is unsatisfiable; one satisfiable path refutes it)
+	for _, o := range todo {
+		if o.x == nil || o.Cover || o.MustFail || len(o.disjuncts) < 2 || r.knownSet[o.Name] && !r.Thorough {
+			continue
+		}
+		if o.Res.Status == "unsat" || o.Res.Status == "sat" || o.Res.Status == "error" {
+			continue
+		}
+		t1 := time.Now()
+		type pr struct {
+			i   int
+			res Result
+		}
+		ch := make(chan pr, len(o.disjuncts))
+		semp := make(chan struct{}, 8)
+		for i, d := range o.disjuncts {
+			i, d := i, d
+			semp <- struct{}{}
+			go func() {
+				defer func() { <-semp }()
+				ch <- pr{i, Solve(o.scriptOf(r.L.prelude, []string{d}), r.Tmo, false)}
+			}()
+		}
+		all, anySat := true, false
+		var satRes Result
+		for range o.disjuncts {
+			p := <-ch
+			if p.res.Status == "sat" {
+				anySat = true
+				satRes = p.res
+			}
+			if p.res.Status != "unsat" {
+				all = false
+			}
+		}
+		switch {
+		case anySat:
+			o.Res = satRes
+			o.Backend = satRes.Solver + " (path by path)"
+		case all:
+			o.Res = Result{Status: "unsat", Solver: "z3/cvc5 (path by path)", Secs: time.Since(t1).Seconds()}
+			o.Backend = "path-by-path"
+		}
+	}
 	// 3. an obligation that is on the baseline of discharged obligations and came back undecided
 	// (timeout / unknown — not a refutation) is tried again on its own, with nothing else running and a
 	// long timeout: a loaded machine must not turn a slow proof into an alarm.
@@ -644,7 +689,30 @@ func (r *Run) report(pd *PropDef) int {
 	}
 	sort.Strings(missing)
 	if len(missing) > 0 && r.Only == "" {
-		r.engineError("%d baseline obligations were not generated on this tree (first: %s): the proof no longer applies", len(missing), missing[0])
+		// an obligation that was discharged on the recorded tree and cannot even be generated on this one
+		// (the function, literal, case clause or loop it was stated for is gone or no longer fits its
+		// contract) is an obligation that no longer holds: reported as a violation without a failing input,
+		// the replay file carries the engine's reason.  (Re-recording the baseline after a reviewed
+		// refactoring is `govc baseline`.)
+		reason := strings.Join(r.EngErrs, "; ")
+		if reason == "" {
+			reason = "the unit no longer produces this obligation"
+		}
+		shown := 0
+		for _, m := range missing {
+			if shown >= 3 {
+				break
+			}
+			shown++
+			rf := &ReplayFile{Property: r.Prop, Obligation: m, Status: "not-generated", Solver: "govc", SolverOut: trunc(reason, 1500), Note: fmt.Sprintf("discharged on the recorded tree, not generated on this one (%d such obligations): the code no longer has the shape the contract was verified for", len(missing))}
+			path := filepath.Join(r.Verif, "replays", sanitize(m)+".json")
+			data, _ := json.MarshalIndent(rf, "", " ")
+			os.WriteFile(path, append(data, '\n'), 0o644)
+			fmt.Printf("VIOLATION property=%s replay=%s no-failing-input-found\n", r.Prop, path)
+			viol++
+		}
+		code = 1
+		r.Extra["baseline_obligations_not_generated"] = len(missing)
 	}
 	r.Extra["violations"] = viol
 	if code == 0 && len(r.EngErrs) > 0 {
